@@ -41,9 +41,23 @@ def inplace_primitives_rule(ck, ix):
     ireduce_dimensions wrapper.  Everything else (comparisons, hashing, formatting, to_*, functional operators, NumPy
     implementations) must leave its operands untouched."""
     n = 0
-    for f in ix.all_functions():
-        if not isinstance(f.node, (ast.FunctionDef, ast.AsyncFunctionDef)) or not f.module.name.startswith("pint.") or ".testsuite" in f.module.name:
-            continue
+    funcs = [f for f in ix.all_functions() if isinstance(f.node, (ast.FunctionDef, ast.AsyncFunctionDef)) and f.module.name.startswith("pint.") and ".testsuite" not in f.module.name]
+    named_fam = lambda nm: nm.startswith("ito") or nm.startswith("__i") or nm in ("_iadd_sub", "_imul_div")
+    # a private helper that is only ever called on `self` from in-place forms is an in-place form itself (extracted helper)
+    callers = {}
+    for f in funcs:
+        for c in walk_local(f.node):
+            if isinstance(c, ast.Call) and isinstance(c.func, ast.Attribute) and c.func.attr.startswith("_") and not c.func.attr.startswith("__"):
+                callers.setdefault(c.func.attr, []).append((f.name, norm(c.func.value)))
+    family = {f.name for f in funcs if named_fam(f.name)}
+    grew = True
+    while grew:
+        grew = False
+        for nm, cs in callers.items():
+            if nm not in family and nm != "_convert_magnitude" and cs and all(fn in family and recv == "self" for fn, recv in cs):
+                family.add(nm)
+                grew = True
+    for f in funcs:
         for c in walk_local(f.node):
             if not (isinstance(c, ast.Call) and isinstance(c.func, ast.Attribute)):
                 continue
@@ -53,7 +67,7 @@ def inplace_primitives_rule(ck, ix):
             if a.startswith("ito") and not a in ("ito", "ito_root_units", "ito_base_units", "ito_reduced_units", "ito_preferred"):
                 continue
             recv = norm(c.func.value)
-            fam = f.name.startswith("ito") or f.name.startswith("__i") or f.name in ("_iadd_sub", "_imul_div")
+            fam = f.name in family
             params = [x.arg for x in f.node.args.args]
             target = params[0] if params else "self"
             n += 1
